@@ -15,13 +15,18 @@ func differential(b *builder, def *checkDef, results []*itemResult, outRoot stri
 	if len(results) < 2 {
 		return nil
 	}
-	ref := results[0]
-	refFP := readFP(ref.fplists)
+	// the first plan item of each workload is the reference build of that workload
+	refs := map[string]*itemResult{}
+	refFPs := map[string]map[uint64]string{}
 	var out []found
-	for _, r := range results[1:] {
-		if r.item.workload != ref.item.workload {
+	for _, r := range results {
+		ref := refs[r.item.workload]
+		if ref == nil {
+			refs[r.item.workload] = r
+			refFPs[r.item.workload] = readFP(r.fplists)
 			continue
 		}
+		refFP := refFPs[r.item.workload]
 		fp := readFP(r.fplists)
 		var idx []uint64
 		for i, f := range fp {
